@@ -35,7 +35,73 @@ def plan(ctx):
         items.append(('fault', engine.stable_hash((ctx.seed, 'ft', i))))
     for i in range(ctx.n(60, 1200)):
         items.append(('closed', engine.stable_hash((ctx.seed, 'cl', i))))
+    for i in range(ctx.n(16, 240)):
+        items.append(('sigint', engine.stable_hash((ctx.seed, 'si', i))))
     return items
+
+
+def run_sigint(rng):
+    """ctrl-c while the pager runs (the terminal sends SIGINT to the whole foreground group): the pager handles it itself,
+    delta must neither die of it nor leave before the pager, in every mode that starts a pager."""
+    w = runner.workdir()
+    d = small_diff(rng)
+    data = d.text().encode()
+    what = rng.choice(['stdin', 'stdin', 'help', 'help', 'two-files', 'git-show'])
+    fa = runner.write_file('c18_a.txt', 'a\nb\n')
+    fb = runner.write_file('c18_b.txt', 'a\nc\n')
+    stub_out = runner.write_file('c18_stub_out_si', data)
+    args = {'stdin': ['--paging', 'always'], 'help': ['--help'], 'show-config': ['--show-config', '--paging', 'always'],
+            'two-files': ['--paging', 'always', fa, fb], 'git-show': ['--paging', 'always', 'git', 'show']}[what]
+    want_rc = 1 if what == 'two-files' else 0
+    sets = {'sub': ['sigint:' + what]}
+    got = {}
+    for knob in (False, True):
+        log = os.path.join(w, 'tmp', 'c18si.%d.%d' % (os.getpid(), int(time.time() * 1e6)))
+        env = {'DELTA_PAGER': 'mypager', 'VERIF_PAGER_LOG': log, 'VERIF_STUB_OUT': stub_out, 'VERIF_STUB_RC': str(want_rc)}
+        if knob:
+            env['VERIF_PAGER_SIGINT_PARENT'] = '1'
+        e = runner.base_env(env, path_prefix=BIN)
+        with open(log + '.out', 'wb') as fo, open(log + '.err', 'wb') as fe:
+            p = subprocess.Popen([runner.binary()] + args, stdin=subprocess.PIPE if what == 'stdin' else subprocess.DEVNULL, stdout=fo, stderr=fe, env=e,
+                                 cwd=os.path.join(w, 'cwd'))
+            try:
+                if what == 'stdin':
+                    p.stdin.write(data)
+                    p.stdin.close()
+            except (BrokenPipeError, OSError):
+                pass
+            try:
+                p.wait(timeout=20)
+            except subprocess.TimeoutExpired:
+                p.kill()
+                p.wait()
+                return [inconclusive('watchdog in sigint sub-monitor', sets=sets)]
+            marker = os.path.exists(log + '.marker')
+        try:
+            received = open(log + '.stdin', 'rb').read()
+        except OSError:
+            received = None
+        err = open(log + '.err', 'rb').read()
+        for ext in ('.meta', '.stdin', '.marker', '.out', '.err'):
+            try:
+                os.unlink(log + ext)
+            except OSError:
+                pass
+        got[knob] = (p.returncode, marker, received, err)
+    (rc0, m0, r0, e0), (rc1, m1, r1, e1) = got[False], got[True]
+    if r0 is None or rc0 != want_rc:
+        return [inconclusive('%s: no pager was started or status %s without any signal' % (what, rc0), sets=sets)]
+    if rc1 != want_rc:
+        return [violated('c18:sigint:status:' + what, 'SIGINT while the pager runs (%s): delta exited with %s, without the signal with %s' % (what, rc1, rc0), want_rc, rc1, sets=sets,
+                         extra={'stderr': e1[-300:].decode('utf-8', 'replace')})]
+    if not m1:
+        return [violated('c18:sigint:exit-before-pager:' + what, 'SIGINT while the pager runs (%s): delta had exited before the pager finished' % what, 'pager finished first', 'delta first', sets=sets)]
+    if r1 != r0:
+        return [violated('c18:sigint:pager-input:' + what, 'SIGINT while the pager runs (%s): the pager received %s bytes, without the signal %d' % (what, None if r1 is None else len(r1), len(r0)),
+                         len(r0), None if r1 is None else len(r1), sets=sets)]
+    o = held(sig=('sigint', what), nontrivial=True, counters={'sigint_runs': 1}, sets=sets)
+    o['executions'] = 2
+    return [o]
 
 
 def small_diff(rng, nsec=None):
@@ -619,6 +685,8 @@ def run_item(item):
         return run_wait(rng)
     if kind == 'fault':
         return run_fault(rng)
+    if kind == 'sigint':
+        return run_sigint(rng)
     return run_closed(rng)
 
 
